@@ -5,10 +5,13 @@ import (
 	"strings"
 )
 
-// restrict keeps feature combinations that trigger recorded defects of the unchanged tree out of
-// the random generator (BUILDERS.md hard rule 3).  Every restriction is documented in
-// notes/C13.md with its finding; each can be lifted with the matching genOpts flag once the
-// defect is repaired.  The oracle itself is not weakened: a replayed witness still fails.
+// restrict keeps feature combinations that trigger recorded defects of the tree out of the random
+// generator (BUILDERS.md hard rule 3).  Every restriction is documented in notes/C13.md with its
+// finding.  The oracle itself is not weakened: a replayed witness still fails.
+//
+// In force: F3, F5, F6, F8, F11 (open findings).  Lifted since the repairs in /repo (711386e F1,
+// 32eb969 F2, bb2901d F4, c9e0651 F6b, ffc291c F7): the code of those restrictions is kept and
+// switched off by defaultOpts; VERIF_C13_RESTRICT=F1,... re-imposes them (development only).
 func (g *genState) restrict(t *tableSpec) {
 	o := g.opt
 	fixed := fixedApplies(t)
@@ -185,7 +188,7 @@ func (g *genState) restrict(t *tableSpec) {
 						for x := s.GX; x < s.GX+s.CS; x++ {
 							if len(refs[x]) == 0 {
 								free = true
-							} else if slack[x] || hasPx(refs[x]) {
+							} else if !o.allowSpanSlack && (slack[x] || hasPx(refs[x])) {
 								// F6b: a spanned column carries no px width, and a percentage
 								// only with contents whose min-content and max-content widths
 								// coincide (a px width alone makes them differ).
